@@ -235,6 +235,13 @@ func (cx *linCtxB) feasibleEdges(blk *ssa.BasicBlock) ([]bool, bool) {
 			}
 			continue
 		}
+		if cm, isCmp := f.Cmp(); isCmp {
+			// an integer merged from several ways and compared with a constant (a count with 0 as "not found"): a way that
+			// brings a constant - or a value with a known constant lower bound - the comparison excludes was not taken
+			if cx.intPhiEdgesG(cm, blk, feasible) {
+				constrained = true
+			}
+		}
 		if cm, isCmp := f.Cmp(); isCmp && (cm.Op == token.EQL || cm.Op == token.NEQ) {
 			x, y := cm.X, cm.Y
 			if ir.IsNilConst(x) {
@@ -981,6 +988,8 @@ func (cx *linCtxB) impliesLE(a, b linB) bool {
 			}
 		}
 	}
+	// loop invariants of the shrinking cursors the query mentions: len(cursor) <= len(what it walks)
+	facts = append(facts, cx.cursorInvariantsG(q)...)
 	for _, f := range facts {
 		d := q.add(f.e, -1)
 		if c, isC := d.isConst(); isC && f.b+c <= 0 {
